@@ -12,7 +12,7 @@ from pvc import driver
 from pvc.driver import Finding
 from pvc.interp import Interp, Path, PyList
 from pvc.models import Models
-from pvc.sym import SObj
+from pvc.sym import Unsupported,  SObj
 from replay import cppgen, scenarios
 
 PROPERTY = "C12"
@@ -84,6 +84,10 @@ def interface_fragments(run):
                 body = items("_Reading_sensor_model_body")
                 want = "impl.sensor_model(state, calibration, *this)" if cal else "impl.sensor_model(state, *this)"
                 expect("Reading_sensor_model_forwards", body == [("Return", (want,), {})], f"Reading::sensor_model body is {body}")
+            except Unsupported as u:
+                # a construct outside the interpreter's subset is not a violation: the compile matrix below (g++ against the runtime's
+                # static_asserts and overloads) still covers the four configurations
+                run.undecided.append(f"C12.gen.{tag}.fragments_execute (interpreter: {u}; covered by the compile matrix only)")
             except Exception as e:
                 expect("fragments_execute", False, f"{type(e).__name__}: {e}")
 
